@@ -94,6 +94,62 @@ def run(ctx):
     _ints(ctx)
     _strlen(ctx)
     _uuid_rules(ctx)
+    _history(ctx)
+
+
+def _history(ctx):
+    """No validator / converter remembers an earlier call (module-level memo
+    tables conflate 1, 1.0, True and '1', or freeze an answer given under
+    other keyword arguments)."""
+    from ..core.table import history_family
+    rep, world = ctx.report, ctx.world
+    rep.rule('R14.6', 'no state between calls: a value is judged the same '
+             'whatever was judged before, by this or a sibling function')
+    funcs = {n: world.func('strutils', n) for n in (
+        'bool_from_string', 'is_valid_boolstr', 'validate_integer',
+        'check_string_length', 'is_int_like')}
+    funcs['is_uuid_like'] = world.func('uuidutils', 'is_uuid_like')
+    u = '12345678-9abc-4def-8123-456789abcdef'
+
+    def setup(interp):
+        rxmodel.install(interp)
+        interp.pure_calls.add('uuid.UUID')
+        interp.call_raises['uuid.UUID'] = ['ValueError', 'TypeError',
+                                           'AttributeError']
+        interp.call_raises['int'] = ['ValueError', 'TypeError']
+    b, v, i = 'bool_from_string', 'is_valid_boolstr', 'is_int_like'
+    pairs = [
+        ((b, ['yes'], {}), (b, ['yes'], {'strict': True})),
+        ((b, ['maybe'], {'default': True}), (b, ['maybe'], {})),
+        ((b, ['maybe'], {}), (b, ['maybe'], {'strict': True})),
+        ((b, ['maybe'], {}), (b, ['maybe'], {'default': True})),
+        ((b, [1], {}), (b, [True], {})),
+        ((b, ['1'], {}), (b, [1], {})),
+        ((b, [0], {'default': True}), (b, [False], {'default': True})),
+        ((b, ['2'], {}), (v, ['2'], {})),
+        ((v, ['on'], {}), (v, ['On '], {})),
+        ((v, ['on'], {}), (b, ['on'], {})),
+        ((i, [1], {}), (i, [1.0], {})),
+        ((i, [1], {}), (i, [True], {})),
+        ((i, ['1'], {}), (i, [1], {})),
+        ((i, [1.0], {}), (i, [1], {})),
+        (('validate_integer', [5, 'n', 0, 10], {}),
+         ('validate_integer', [5, 'n', 6, 10], {})),
+        (('validate_integer', ['5', 'n'], {}),
+         ('validate_integer', [5.0, 'n'], {})),
+        (('validate_integer', [5, 'n'], {}),
+         ('validate_integer', [5, 'n', None, 4], {})),
+        (('check_string_length', ['abc', 'n', 0, 5], {}),
+         ('check_string_length', ['abc', 'n', 0, 2], {})),
+        (('check_string_length', ['abc', 'n'], {}),
+         ('check_string_length', ['abc', 'n', 4], {})),
+        (('is_uuid_like', [u], {}), ('is_uuid_like', [u[:-1] + 'g'], {})),
+        (('is_uuid_like', ['{%s}' % u], {}), ('is_uuid_like', [u], {})),
+        (('is_uuid_like', [u], {}), ('is_uuid_like', [u.upper()], {})),
+    ]
+    n = history_family(rep, 'R14.6', 'validators[after an earlier call]',
+                       world, funcs, pairs, setup=setup)
+    rep.count('call histories decided', n, floor=len(pairs))
 
 
 def _tables(ctx):
